@@ -5,11 +5,13 @@ import (
 	"fmt"
 	"reflect"
 	"regexp"
+	gosyntax "regexp/syntax"
 	"sort"
 	"strconv"
 	"strings"
 	"sync"
 	"testing"
+	"unicode"
 	"unicode/utf8"
 
 	rsyntax "github.com/quasilyte/regex/syntax"
@@ -449,6 +451,10 @@ func minimizeRegex(env *gen.Env, set *core.Set, a, kind string) string {
 }
 
 func classifyRegexFinding(env *gen.Env, set *core.Set, a, b, kind string) string {
+	if goFoldFactoringQuirk(a) {
+		// the reference itself is inconsistent here (see goFoldFactoringQuirk)
+		return "go-regexp-prefix-factoring-ignores-case-flag"
+	}
 	m := minimizeRegex(env, set, a, kind)
 	op := "?"
 	if re, err := rsyntax.NewParser(nil).Parse(m); err == nil {
@@ -491,4 +497,55 @@ func hasShorterPrefixFirstAlt(e rsyntax.Expr) bool {
 		}
 	}
 	return false
+}
+
+// goFoldFactoringQuirk reports whether the pattern has an alternation in which two branches start
+// with the same letter but only one of them case-insensitively, e.g. `(?i:Abbbbb)|A`. Go's
+// regexp/syntax factors common leading pieces of alternatives without comparing their fold-case
+// flag once the first piece is a separate node: `(?i:Ab{5})|A` is compiled as `(?i:A(?:b{5}|))` and
+// matches "a", while `(?i:Abbbbb)|A` does not. Any rewrite that splits the leading literal off
+// (run folding, `xx*` -> `x+`) therefore changes the matches although it is an equivalence on paper.
+func goFoldFactoringQuirk(pat string) bool {
+	re, err := gosyntax.Parse(pat, gosyntax.Perl)
+	if err != nil {
+		return false
+	}
+	var lead func(r *gosyntax.Regexp) (rune, bool, bool)
+	lead = func(r *gosyntax.Regexp) (rune, bool, bool) {
+		switch r.Op {
+		case gosyntax.OpLiteral:
+			if len(r.Rune) > 0 {
+				return unicode.SimpleFold(unicode.ToLower(r.Rune[0])), r.Flags&gosyntax.FoldCase != 0, true
+			}
+		case gosyntax.OpConcat, gosyntax.OpCapture, gosyntax.OpPlus:
+			if len(r.Sub) > 0 {
+				return lead(r.Sub[0])
+			}
+		case gosyntax.OpRepeat:
+			if r.Min >= 1 && len(r.Sub) > 0 {
+				return lead(r.Sub[0])
+			}
+		}
+		return 0, false, false
+	}
+	found := false
+	var walk func(r *gosyntax.Regexp)
+	walk = func(r *gosyntax.Regexp) {
+		if r.Op == gosyntax.OpAlternate {
+			for i := range r.Sub {
+				for j := i + 1; j < len(r.Sub); j++ {
+					ri, fi, oki := lead(r.Sub[i])
+					rj, fj, okj := lead(r.Sub[j])
+					if oki && okj && fi != fj && unicode.ToLower(ri) == unicode.ToLower(rj) {
+						found = true
+					}
+				}
+			}
+		}
+		for _, s := range r.Sub {
+			walk(s)
+		}
+	}
+	walk(re)
+	return found
 }
